@@ -495,7 +495,7 @@ def run(ctx):
         chunk = ex[i:i + 256]
         for case, (R, M) in zip(chunk, evaluate(chunk, ctx.driver_ok)):
             judge_case(ctx, case, R, M)
-    n = int(os.environ.get("VERIF_N") or ctx.n(350, 30000))
+    n = int(os.environ.get("VERIF_N") or ctx.n(250, 30000))
     if not ctx.proof_ok:
         n = max(n, 3000)
         ctx.notes.append("proof side broken: widened search")
